@@ -137,8 +137,90 @@ func (e *fileSysExec) probe(n int) ([]sysEv, error) {
 	return evs, nil
 }
 
+// flipCtx: a context that reports cancellation from its k-th consultation on (Err or Done): a
+// caller's context that is cancelled, or expires, while a Store is under way.
+type flipCtx struct {
+	context.Context
+	k, calls int
+	done     chan struct{}
+}
+
+func (c *flipCtx) look() bool {
+	c.calls++
+	if c.calls > c.k {
+		select {
+		case <-c.done:
+		default:
+			close(c.done)
+		}
+		return true
+	}
+	return false
+}
+func (c *flipCtx) Err() error {
+	if c.look() {
+		return context.Canceled
+	}
+	return nil
+}
+func (c *flipCtx) Done() <-chan struct{} { c.look(); return c.done }
+
+// execCtx: fctx <n> <k>: the file Store of n bytes under a context that turns cancelled at its
+// k-th consultation.  Whatever the store makes of the context, what it reports must be true.
+func (e *fileSysExec) execCtx(n, k int) (obs, viol string) {
+	dir, err := os.MkdirTemp("", "verif-filectx-")
+	if err != nil {
+		panic(err)
+	}
+	defer os.RemoveAll(dir)
+	want := patternBytes(n)
+	p := mfile.NewPersistForPath(dir)
+	ctx := &flipCtx{Context: context.Background(), k: k, done: make(chan struct{})}
+	serr := p.Store(ctx, crashName, want)
+	classify := func() string {
+		b, err := p.Load(context.Background(), crashName)
+		if err != nil {
+			if os.IsNotExist(err) {
+				return "absent"
+			}
+			return "loaderr"
+		}
+		if bytes.Equal(b, want) {
+			return "complete"
+		}
+		return fmt.Sprintf("partial(%d/%d)", len(b), n)
+	}
+	after := classify()
+	where := fmt.Sprintf("write of %d bytes under a context cancelled at its consultation #%d", n, k+1)
+	if strings.HasPrefix(after, "partial") || after == "loaderr" {
+		viol = fmt.Sprintf("%s: a later load returns %s", where, after)
+	}
+	if serr == nil && after != "complete" {
+		viol = fmt.Sprintf("%s: the write reported success but a later load returns %s", where, after)
+	}
+	err = p.Store(context.Background(), crashName, want)
+	again := classify()
+	if err != nil {
+		again = "storeerr"
+	}
+	if viol == "" && again != "complete" {
+		viol = fmt.Sprintf("%s, then stored again: a later load returns %s (not repaired)", where, again)
+	}
+	if after == "complete" {
+		e.lastSteps = n + 4
+	} else {
+		e.lastSteps = 1
+	}
+	return after + " " + again, viol
+}
+
 func (e *fileSysExec) Exec(line string) (obs, viol string) {
 	t := strings.Fields(line)
+	if t[0] == "fctx" {
+		n, _ := strconv.Atoi(t[1])
+		k, _ := strconv.Atoi(t[2])
+		return e.execCtx(n, k)
+	}
 	if t[0] != "fsys" {
 		return e.fileCrashExec.Exec(line)
 	}
@@ -232,7 +314,7 @@ func (e *fileSysExec) Exec(line string) (obs, viol string) {
 
 func (e *fileSysExec) ModelLine(line string) string {
 	t := strings.Fields(line)
-	if t[0] != "fsys" {
+	if t[0] != "fsys" && t[0] != "fctx" {
 		return e.fileCrashExec.ModelLine(line)
 	}
 	// the step model at a cut with the same outcome class (which step a system call belongs to is
